@@ -21,8 +21,8 @@ from vf.gen import c20_build
 PID = "C20"
 LEVEL = "exploration"
 RULE = (
-    "templates built line by line from a plan: 1-9 top-level items (nested <=2 levels in def/block/call/ns:def/control "
-    "bodies) drawn from: ${expr} (single line with text around it / several per line / bracketed multi-line / "
+    "templates built line by line from a plan: 1-7 (quick) / 1-9 (thorough) top-level items (nested <=2 levels in "
+    "def/block/call/ns:def/control bodies) drawn from: ${expr} (single line with text around it / several per line / bracketed multi-line / "
     "`${` newline expr newline `}`), ${x | f(call)}, control lines if/elif/else/for/while/with/try-except with 0-2 "
     "backslash continuation lines, <% %> and <%! %> blocks (inline or multi-line, leading blank lines, margins 0-8, "
     "if/def/blank statements), <%def name=sig>, <%block args>, <%page args/>, <%call expr>, <%self:x a=\"${call}\">, "
@@ -49,6 +49,10 @@ ASSUMPTIONS = [
     "are not generated",
     "Lingua comments are compared after whitespace normalisation (the plugin joins lines with blanks)",
     "an extractor exception counts only if mako itself compiles the template (otherwise it is a harness error)",
+    "backslash continuation is generated only on opening control keywords (if/for/while/with): mako's code generator "
+    "emits invalid Python for a continued `% elif`/`% except` line, so such templates do not compile",
+    "a failure is attributed to a catalogued finding (KEY2ID) only if the call has the finding's layout class AND the "
+    "observation is exactly what the finding predicts; anything else gets a generic <extractor>:<class>:<kind> key",
 ]
 
 KW = {"_": None, "gettext": None, "ngettext": (1, 2)}
@@ -476,8 +480,7 @@ def plan_strategy(max_items, max_depth):
     })
 
 
-NONTRIVIAL_KINDS = {"expr-ml", "filter", "ctl-cont", "code", "module", "def-sig", "block-args", "page-args",
-                    "call-expr", "ns-attr"}
+NONTRIVIAL_KINDS = {"expr-ml", "filter", "ctl-cont", "def-sig", "block-args", "page-args", "call-expr", "ns-attr"}
 
 
 def check_plan(plan, ev, active):
@@ -503,7 +506,8 @@ def check_plan(plan, ev, active):
             "nonascii" if not raw["src"].isascii() else "ascii", "tags:%d" % len(plan["tags"])]
     if any(c["comments"] for c in raw["calls"]):
         lab.append("comment-attached")
-    nt = any(c["kind"] in NONTRIVIAL_KINDS for c in raw["calls"]) or any(
+    nt = any((c["kind"] in NONTRIVIAL_KINDS) or (c["kind"] in ("code", "module") and c["lead"] > 0)
+             for c in raw["calls"]) or any(
         l.startswith("tc:") and l.endswith(("d1", "d2")) for l in labels)
     ev.case(key=raw["src"], nontrivial=nt, labels=lab)
     if nt and len(raw["src"]) < 700:
@@ -541,7 +545,7 @@ def run(ctx):
             ctx.fail(f)
         ev.notes["known_shapes_active"] = sorted(active)
     if part in (None, "search"):
-        n = ctx.pick(250, 4000)
+        n = ctx.pick(160, 4000)
         shards = ctx.pick(16, 32)
         tasks = [(ctx.shard_seed(i, "search"), n, ctx.pick(7, 9), 2, sorted(active)) for i in range(shards)]
         ctx.pmap(shard_search, tasks)
